@@ -278,6 +278,9 @@ def plan(pid: str, tier: str, seed: int) -> dict:
                                     ("pausepar", {"AnyOrder": "TRUE", "MaxPauses": 1}, {}),
                                     ("restartplain", {"AnyOrder": "FALSE", "MaxRestarts": 2, "MaxCrashes": 1}, {}),
                                     ("failbranch", {"AnyOrder": "TRUE", "MaxWithhold": 1, "MaxCancels": 1}, {"depth": 60})]),
+            # two workers on the unversioned workflow row (spec/WfRow.tla, scenario "complete"): every interleaving of the two real
+            # handlers executed under the baton scheduler, row + pushed messages compared with the specification after every step
+            component=lambda rep: wfrow_component(rep, tier, seed, "complete"),
         )
     if pid == "C09":
         progs = [PR.by_name(n) for n in (("chain2", "diamond", "poll", "selfloop", "failbranch") if quick else CORE)]
@@ -377,6 +380,9 @@ def plan(pid: str, tier: str, seed: int) -> dict:
                + [(n, {"AnyOrder": "FALSE", "MaxCancels": 1}, {}) for n in ("diamond", "failbranch", "selfloop", "firstof")]
                + [("chain2", {"AnyOrder": "TRUE", "MaxCancels": 1, "MaxWithhold": 1}, {})]
                + ([] if quick else [(n, {"AnyOrder": "TRUE", "MaxCancels": 1}, {"depth": 70}) for n in ("diamond", "failbranch")]),
+            # two workers on the unversioned workflow row (spec/WfRow.tla, scenario "start"): every interleaving of the two real
+            # handlers executed under the baton scheduler, row + pushed messages compared with the specification after every step
+            component=lambda rep: wfrow_component(rep, tier, seed, "start"),
         )
     if pid == "C18":
         progs = [PR.by_name(n) for n in ("susp", "suspmulti", "suspside", "susp2", "suspsame")]
@@ -447,6 +453,12 @@ def adapt_component(rep: Reporter, res: dict) -> dict:
         rep.violation(v["what"], ctx, v.get("replay") or {})
     return {"states": res.get("states", 0), "transitions": res.get("transitions", 0),
             "replayed": res.get("cases_replayed", 0), "configs": res.get("details"), "samples": res.get("samples", [])[:3]}
+
+
+def wfrow_component(rep: Reporter, tier: str, seed: int, scenario: str) -> dict:
+    from . import check_wfrow
+
+    return check_wfrow.component(rep, tier, seed, (scenario,))
 
 
 def slots_component(rep: Reporter, tier: str, seed: int) -> dict:
